@@ -41,5 +41,5 @@ func (a *AutoComplete) autoCompleteCallback(t *terminal.Terminal, line string, p
 		}
 		fmt.Fprintln(t.Out)
 	}
-	return commands[0][:l], l, true
+	return commands[0][:l] + line[pos:], l, true // keep what is after the cursor.
 }
